@@ -236,6 +236,8 @@ class Engine:
         self.cur_line = None
         self.anchor_hits = set()
         self.global_axioms = {}
+        self.mutated_names = set()
+        self.alias_of = {}
 
     # ---- obligations ---------------------------------------------------------------------------
     def oblige(self, st, kind, label, goal, node=None, note=None):
@@ -1048,7 +1050,20 @@ class Engine:
         return res if res is not None else NoneV
 
     # ---- assignment ------------------------------------------------------------------------------
-    def assign_target(self, tgt, val, st, node):
+    def assign_target(self, tgt, val, st, node, _inplace=False):
+        if isinstance(tgt, ast.Name) and _inplace and not getattr(self, "in_ghost", False):
+            # in-place mutation of the object bound to this name: every alias (x = y) sees it
+            seen = {tgt.id}
+            cur = tgt.id
+            while cur in self.alias_of and self.alias_of[cur] not in seen:
+                cur = self.alias_of[cur]
+                seen.add(cur)
+                if cur in st.env and isinstance(st.env[cur].ty, type(val.ty)) and st.env[cur].ty == val.ty:
+                    st.env[cur] = val
+                    self.mutated_names.add(cur)
+            for k, v in list(self.alias_of.items()):
+                if v == tgt.id and k in st.env and st.env[k].ty == val.ty:
+                    st.env[k] = val
         if isinstance(tgt, ast.Name):
             decl = self.c.locals.get(tgt.id)
             if decl is None and getattr(self, "in_ghost", False):
@@ -1089,7 +1104,7 @@ class Engine:
             if isinstance(bty, ObjT) and tgt.attr in bty.fields:
                 v = self.coerce(val, bty.fields[tgt.attr], st, node, "attribute " + tgt.attr)
                 self.check_alias(tgt.value, node)
-                return self.assign_target(tgt.value, Val(bty.set(base.t, tgt.attr, v.t), bty), st, node)
+                return self.assign_target(tgt.value, Val(bty.set(base.t, tgt.attr, v.t), bty), st, node, _inplace=True)
             raise Unsupported("attribute store on %s at line %s" % (bty, node.lineno))
         if isinstance(tgt, ast.Subscript):
             base = self.ev(tgt.value, st)
@@ -1098,7 +1113,7 @@ class Engine:
             if isinstance(bty, ListT):
                 i = self.index_list(base, tgt.slice, st, node)
                 v = self.coerce(val, bty.elt, st, node, "list element")
-                return self.assign_target(tgt.value, Val(bty.mk(z3.Store(bty.arr(base.t), i, v.t), bty.len(base.t)), bty), st, node)
+                return self.assign_target(tgt.value, Val(bty.mk(z3.Store(bty.arr(base.t), i, v.t), bty.len(base.t)), bty), st, node, _inplace=True)
             if isinstance(bty, TupleT) and isinstance(tgt.slice, ast.Constant) and isinstance(tgt.slice.value, int):
                 # a fixed-length list used as a record (e.g. [first, last]): functional update of one component
                 k = tgt.slice.value
@@ -1113,7 +1128,7 @@ class Engine:
                 v = self.coerce(val, bty.v, st, node, "dict value")
                 new = Val(bty.store(base.t, k.t, v.t), bty)
                 self.dict_insert_hook(tgt.value, base, new, k, st)
-                return self.assign_target(tgt.value, new, st, node)
+                return self.assign_target(tgt.value, new, st, node, _inplace=True)
             if isinstance(bty, ObjT) and "__getitem__" in getattr(bty, "dunder", {}):
                 f = bty.dunder["__getitem__"]
                 sub = ast.Subscript(value=ast.Attribute(value=tgt.value, attr=f, ctx=ast.Load()), slice=tgt.slice, ctx=ast.Store())
@@ -1130,6 +1145,8 @@ class Engine:
         root = basenode
         while isinstance(root, (ast.Attribute, ast.Subscript)):
             root = root.value
+        if isinstance(root, ast.Name) and not getattr(self, "in_ghost", False):
+            self.mutated_names.add(root.id)
         if isinstance(root, ast.Name) and root.id in self.alias_derived and root.id not in self.c.alias_ok:
             raise Unsupported("in-place mutation of %s, which was bound from a sub-object (aliasing not modelled) at line %s"
                               % (root.id, node.lineno))
@@ -1297,10 +1314,14 @@ class Engine:
 
     def note_alias(self, tgt, valnode):
         if isinstance(tgt, ast.Name):
+            self.alias_of.pop(tgt.id, None)
             if isinstance(valnode, (ast.Subscript, ast.Attribute)):
                 self.alias_derived.add(tgt.id)
             else:
                 self.alias_derived.discard(tgt.id)
+                if isinstance(valnode, ast.Name) and valnode.id != tgt.id:
+                    # x = y: both names denote the same object; an in-place mutation through one is applied to the other as well
+                    self.alias_of[tgt.id] = valnode.id
 
     def st_AugAssign(self, s, st):
         from . import lib
@@ -1374,8 +1395,12 @@ class Engine:
             return True
         s = z3.Solver()
         s.set("timeout", 150)
-        for f in st.pc:
-            if not _contains_quantifier(f):
+        stack = list(st.pc)
+        while stack:
+            f = stack.pop()
+            if z3.is_and(f):
+                stack.extend(f.children())
+            elif not _contains_quantifier(f):
                 s.add(f)
         r = s.check()
         return r != z3.unsat
@@ -1833,6 +1858,10 @@ class Engine:
                         o = self.oblige(s2, "safety", "return-type[%s]" % e, z3.BoolVal(False), None)
                         continue
                 self.return_states.append((s2, rv))
+                # frame: a parameter object that the body mutates in place must be listed under `modifies` (the caller sees the mutation)
+                for p, pty in c.params.items():
+                    if p in self.mutated_names and p not in c.modifies and p in s2.env and s2.env[p].ty == pty and isinstance(pty, (ObjT, ListT, DictT, SetT)):
+                        self.oblige(s2, "frame", "%s-not-mutated" % p, s2.env[p].t == s2.old[p].t)
                 sp = SpecEnv(self, c, None, old=s2.old, result=rv)
                 proved = {}
                 for name, e in sorted(c.ensures.items(), key=lambda kv: isinstance(kv[1], dict)):
